@@ -83,6 +83,8 @@ class CompressorBase(abc.ABC):
         )
 
     def _uncompress_blocks(self, decoded_data: bytes, block_sizes: np.ndarray, raw_block_size: int) -> bytes:
+        if len(block_sizes) == 0:  # empty data array (e.g. a grid without cells)
+            return b""
         block_offsets = np.array([0] + [int(s) for s in np.cumsum(block_sizes)], dtype=self._header_type)
         return np.concatenate(
             [
